@@ -231,6 +231,11 @@ Definition dispatch (c : registry_consts) (cfg : config) (configured : string) :
   | DispatchOther => Fault
   end.
 
+(** filtering.c walks the filter chain: every element whose name the registry knows is called (in order), an unknown
+    name is skipped (`continue`) - it neither ends the walk nor shifts anything.  (All called filters answering PASS.) *)
+Definition chain_calls sent (reg : registry) (cfg : config) (elems : list string) : list string :=
+  flat_map (fun n => match call sent reg cfg n with Called p => [p] | _ => [] end) elems.
+
 (** switching one guard off *)
 Definition switch_off (g : string) (cfg : config) : config := fun x => if String.eqb x g then false else cfg x.
 Definition all_on : config := fun _ => true.
